@@ -11,11 +11,12 @@
   1. THE WORKING VALUE (deliverable "log_spec"):
        `log_code_spec`   what `decomposed192.log` computes, in ℚ: no panic, termination, no int16 wrap; argument split
                          `X = v·10^e0`, leading digits `M = ⌊10v⌋`, reduced argument, computed quotient `f`, the series
-                         `Sj f 12 = Σ_{k≤12} f^(2k+1)/(2k+1)` within `(1−lam)^38`, the tail within `lam·(4(|e0|·ln10+2R)+lnM)`
-       `log_spec`        against `Real.log`: `|val x − |ln X|| ≤ 2·tailR F + (16|e0| + 7[M≠10] + 192·S)·10^-57`,
-                         `tailR F = F^27/(27(1−F²))`, `F ≤ 1/(2M)`, sign `neg = (X < 1)`
-       `log_abs_close`   hence for ALL arguments `|val x − |ln X|| ≤ 7·10^-37`  (NOT 10^-56: the artanh series is cut
-                         after the 25th power while its argument reaches 1/21; harmless at 34 digits)
+                         `Sj f 16 = Σ_{k≤16} f^(2k+1)/(2k+1)` within `(1−lam)^50`, the tail within `lam·(4(|e0|·ln10+2R)+lnM)`
+       `log_spec`        against `Real.log`: `|val x − |ln X|| ≤ 2·tailR F + (16|e0| + 7[M≠10] + 231·S)·10^-57`,
+                         `tailR F = F^35/(35(1−F²))`, `F ≤ 1/(2M)`, sign `neg = (X < 1)`
+       `log_abs_close`   hence for ALL arguments `|val x − |ln X|| ≤ 2·10^-47 + 7·10^-57·|ln X|`  (since /repo 04f6227 the
+                         artanh series runs to the 33rd power; with the former 25th power the bound was 7·10^-37, which
+                         violated the tolerance of C18 at bases just below 1.1)
        `log_rel_close`   and `|val x − |ln X||·3·10^34 ≤ |ln X|` whenever `X ≥ 1 + 10^-60` or `X ≤ 1 − 7.5·10^-22`
        `log1p_spec`      the 10-term series of `decomposed192.log1p` (|x| ≤ 10^-9, exponent ≥ −3264): within
                          `10·lam·|x|` of the polynomial, `(10·lam + 10^-90)|x| ≤ 2·10^-56·T` of `T = |ln(1±|x|)|`
@@ -55,9 +56,10 @@ theorem log_spec (a : decomposed192) (ha : a.sig.toNat ≠ 0)
     (he : -16000 ≤ a.exp.toInt ∧ a.exp.toInt ≤ 16000) :
     ∃ (neg : Bool) (x : decomposed192) (t : Int8),
       Gen.decomposed192.log a = .ok (neg, x, t) ∧ (t = 0 ∨ t = 1 ∨ t = -1) ∧
-      -5500 ≤ x.exp.toInt ∧ x.exp.toInt ≤ 5500 ∧
+      -5930 ≤ x.exp.toInt ∧ x.exp.toInt ≤ 5500 ∧
       (neg = true → ((D192.val a : ℚ) : ℝ) < 1) ∧ (((D192.val a : ℚ) : ℝ) < 1 → neg = true) ∧
-      |((D192.val x : ℚ) : ℝ) - (|Real.log ((D192.val a : ℚ) : ℝ)|)| ≤ 7 / 10 ^ 37 ∧
+      |((D192.val x : ℚ) : ℝ) - (|Real.log ((D192.val a : ℚ) : ℝ)|)|
+        ≤ 2 / 10 ^ 47 + 7 / 10 ^ 57 * |Real.log ((D192.val a : ℚ) : ℝ)| ∧
       |Real.log ((D192.val a : ℚ) : ℝ)| ≤ 10 ^ 5 :=
   LogAcc.log_abs_close a ha he
 
@@ -67,7 +69,7 @@ theorem log_spec_rel (a : decomposed192) (ha : a.sig.toNat ≠ 0)
     (hX : 1 + 1 / 10 ^ 60 ≤ ((D192.val a : ℚ) : ℝ) ∨ ((D192.val a : ℚ) : ℝ) ≤ 1 - 75 / 10 ^ 23) :
     ∃ (neg : Bool) (x : decomposed192) (t : Int8),
       Gen.decomposed192.log a = .ok (neg, x, t) ∧ (t = 0 ∨ t = 1 ∨ t = -1) ∧
-      -5500 ≤ x.exp.toInt ∧ x.exp.toInt ≤ 5500 ∧ neg = decide (((D192.val a : ℚ) : ℝ) < 1) ∧
+      -5930 ≤ x.exp.toInt ∧ x.exp.toInt ≤ 5500 ∧ neg = decide (((D192.val a : ℚ) : ℝ) < 1) ∧
       |((D192.val x : ℚ) : ℝ) - (|Real.log ((D192.val a : ℚ) : ℝ)|)| * (30 * 10 ^ 33)
         ≤ |Real.log ((D192.val a : ℚ) : ℝ)| ∧
       1 / 10 ^ 61 ≤ |Real.log ((D192.val a : ℚ) : ℝ)| ∧ |Real.log ((D192.val a : ℚ) : ℝ)| ≤ 10 ^ 5 :=
